@@ -37,6 +37,10 @@ class CGen:
         ch = self.ch
         if ch.chance(1, 3, "bigconst"):
             return ch.pick(BIGS, "big")
+        if self.profile == "rich" and ch.chance(1, 12, "predefmacro"):
+            # deterministic predefined macros (per translation unit)
+            return ch.pick(["__COUNTER__", "__LINE__", "__COUNTER__"],
+                           "macro")
         return str(ch.draw(17, "small"))
 
     def binops(self):
